@@ -142,7 +142,9 @@ def run_property(pid: str, tier: str, seed: int, jobs: int | None = None) -> int
             merged["samples"].extend(r.get("samples", [])[: 5 - len(merged["samples"])])
         for k, v in r.get("violation_counts", {}).items():
             merged["violation_counts"][k] = merged["violation_counts"].get(k, 0) + v
-        violations.extend(r.get("violations", []))
+        for v in r.get("violations", []):
+            v["shard_spec"] = spec
+            violations.append(v)
         for k, v in r.get("extra", {}).items():
             if isinstance(v, (int, float)) and not isinstance(v, bool):
                 merged["extra"][k] = merged["extra"].get(k, 0) + v
@@ -187,7 +189,12 @@ def run_property(pid: str, tier: str, seed: int, jobs: int | None = None) -> int
             unreproduced += 1
         if ok is None:
             if not any(key in s for s in inconclusive):
-                inconclusive.append(f"candidate violation {key} did not reproduce in a fresh process")
+                os.makedirs(os.path.join(VERIF, "replays"), exist_ok=True)
+                upath = os.path.join(VERIF, "replays", f"unreproduced-{pid}-{key.replace('/', '_')}.json")
+                with open(upath, "w") as f:
+                    json.dump({"property": pid, "key": key, "what": vs[0].get("what"), "case": vs[0]["case"],
+                               "detail": vs[0].get("detail"), "shard_spec": vs[0].get("shard_spec")}, f, indent=1, default=repr)
+                inconclusive.append(f"candidate violation {key} did not reproduce in a fresh process (saved {upath})")
             continue
         if ok["key"] in known_keys:
             known_seen[ok["key"]] = merged["violation_counts"].get(key, len(vs))
